@@ -73,7 +73,7 @@ def check_push_positive(chk, rule, prog, cache):
     at once and occupies no nesting level); the counts themselves are C02.counter"""
     # pushes: definite containers with a positive count, tags with 1 (the counts themselves are C02.counter)
     load_ = prog.fn("cbor_load")
-    g_ = prog.global_for(load_, "cbor_load.callbacks")
+    g_ = __import__("tables").load_callbacks_global(prog)
     for el in g_["init_val"].elems:
         fn_ = getattr(el, "name", None)
         if not fn_ or fn_ not in prog.funcs:
@@ -87,7 +87,8 @@ def check_push_positive(chk, rule, prog, cache):
                     base = cnt
                     if isinstance(cnt, tuple) and cnt[0] == "op" and cnt[1] in ("mul", "shl"):
                         base = cnt[3] if not P.is_const(cnt[3]) else cnt[4]
-                    ok = pa.st.known_positive(base)
+                    # (the test may be on the member count or on the pushed count itself)
+                    ok = pa.st.known_positive(base) or pa.st.known_positive(cnt)
                     chk.ob(rule, "%s: a definite frame is pushed only with a positive count" % fn_, ok, e.ins.loc(), fn=fn_,
                            key="pushpos:%s" % fn_, detail="" if ok else "count %s not known to be positive" % DR.fmt_term(cnt))
 
@@ -211,7 +212,8 @@ def run(ctx, chk):
                             a_ = [x for x in pa.events if x.kind == "call" and x.res == b]
                             cap = a_[0].args[0][1] if a_ and is_const(a_[0].args[0]) else None
                         elif b[0] == "arg":
-                            ty = prog.fn(e.fn.name).params[b[1]]["type"].rstrip("*").lstrip("%")
+                            # (a parameter term always names a parameter of the routine the path starts in, also inside an inlined helper)
+                            ty = f.params[b[1]]["type"].rstrip("*").lstrip("%") if b[1] < len(f.params) else None
                             cap = sizes.get(ty)
                         elif b[0] == "ld":
                             cap = n_[1] + off   # copy into a field region of a heap object of matching struct type (sizeof-driven)
@@ -300,7 +302,7 @@ def run(ctx, chk):
                 v = e.args[1]
                 if v[0] == "op" and v[1] == "add" and ("c", (1 << (P.type_bits(v[2]) or 64)) - 1) in (v[3], v[4]):
                     ndec += 1
-                    zero = pa.st.truth.get(("icmp", "eq", v, ("c", 0)))
+                    zero = P.zero_truth(pa.st, v)
                     later_pop = any(x.kind == "call" and x.callee == "_cbor_stack_pop" for x in pa.events[idx:])
                     ok = zero is not None and (later_pop if zero else not later_pop)
                     chk.ob("C01.frame-invariants", "_cbor_builder_append path %d: countdown is tested for zero and a finished frame is popped" % k, ok,
